@@ -55,7 +55,7 @@ def universe(key, tier):
     for level, core_only in uprob.plan(tier):
         if level == 3:
             continue
-        for cid, _ps in uprob.instances(level, slots, core_only, variant):
+        for cid in uprob.ids(level, slots, core_only, variant):
             if level == 2 and tier == "quick":
                 names = [s for s, _ in cid]
                 same_action = any(all(n in v for n in names) for v in ACT_SLOTS.values())
